@@ -158,8 +158,76 @@ fn query(raw: u8) -> MembershipQueryWithSourcesHeader {
     }
 }
 
+/// C02: the hand-written `Debug` / `Display` / name tables of the number types, over every value
+fn fmt_tables() -> String {
+    use std::fmt::Write;
+    let mut n = 0usize;
+    let mut sink = String::new();
+    macro_rules! put {
+        ($($arg:tt)*) => {{
+            sink.clear();
+            let _ = write!(sink, $($arg)*);
+            n += sink.len();
+        }};
+    }
+    for v in 0..=u16::MAX {
+        put!("{:?}", EtherType(v));
+        put!("{:?}", EtherType::from(v));
+        put!("{:?}", ArpHardwareId(v));
+        put!("{:?}", ArpHardwareId::from(v));
+        put!("{:?}", ArpOperation(v));
+        put!("{:?}", ArpOperation::from(v));
+        if let Ok(x) = LinuxNonstandardEtherType::try_from(v) {
+            put!("{:?}", x);
+            if u16::from(x) != v {
+                return "err(nonstandard-ether-type-conversion)".to_string();
+            }
+        }
+        if let Ok(x) = LinuxSllPacketType::try_from(v) {
+            put!("{:?}", x);
+            if u16::from(x) != v {
+                return "err(sll-packet-type-conversion)".to_string();
+            }
+        }
+        if u16::from(EtherType::from(v)) != v || u16::from(ArpHardwareId::from(v)) != v || ArpOperation::from(v).0 != v {
+            return "err(u16-conversion)".to_string();
+        }
+    }
+    for v in 0..=u8::MAX {
+        let x = IpNumber(v);
+        put!("{:?}", x);
+        put!("{:?} {:?}", x.keyword_str(), x.protocol_str());
+        let y = icmpv6::NdpOptionType(v);
+        put!("{:?} {:?}", y, y.keyword_str());
+        if u8::from(IpNumber::from(v)) != v || u8::from(icmpv6::NdpOptionType::from(v)) != v {
+            return "err(u8-conversion)".to_string();
+        }
+        // the three lists of IPv6 extension header numbers have to tell the same story
+        let ext = x.is_ipv6_ext_header_value();
+        let raw = Ipv6RawExtHeader::header_type_supported(x);
+        let raw_s = Ipv6RawExtHeaderSlice::header_type_supported(x);
+        let skippable = Ipv6Header::is_skippable_header_extension(x);
+        if raw != raw_s || (raw && !ext) || (skippable && !ext) || (raw && !skippable) {
+            return format!("err(extension-number-lists-differ({}))", v);
+        }
+    }
+    use etherparse::err::{Layer, ValueType};
+    for l in [
+        Layer::LinuxSllHeader, Layer::Ethernet2Header, Layer::EtherPayload, Layer::VlanHeader, Layer::MacsecHeader, Layer::MacsecPacket,
+        Layer::IpHeader, Layer::Ipv4Header, Layer::Ipv4Packet, Layer::IpAuthHeader, Layer::Ipv6Header, Layer::Ipv6Packet,
+        Layer::Ipv6ExtHeader, Layer::Ipv6HopByHopHeader, Layer::Ipv6DestOptionsHeader, Layer::Ipv6RouteHeader, Layer::Ipv6FragHeader,
+        Layer::UdpHeader, Layer::UdpPayload, Layer::TcpHeader, Layer::Icmpv4, Layer::Icmpv4Timestamp, Layer::Icmpv4TimestampReply,
+        Layer::Icmpv6, Layer::Arp,
+    ] {
+        put!("{} {:?} {}", l, l, l.error_title());
+    }
+    let _ = ValueType::Ipv4PayloadLength;
+    format!("ok({})", if n > 0 { "rendered" } else { "nothing" })
+}
+
 pub fn run(op: &str, a: &[&str]) -> Option<String> {
     Some(match (op, a) {
+        ("impl.bf.fmt_tables", []) => fmt_tables(),
         ("bf.try_new", [t, v]) => try_new(t, v)?,
         ("bf.try_from", [t, v]) => try_from(t, v)?,
         ("bf.sl_from_len", [n]) => MacsecShortLen::from_len(num::<usize>(n)?)
